@@ -426,7 +426,14 @@ def builtin(ex, st, fr, name, a, x, work):
         else: clear_state(ex, st, mf)
         return 0
     if name.startswith('_ZN3fmt') and 'vformat' in name and x['ty'].k == 'void':
-        S.add('fmt::vformat -> empty string (message formatting is never the subject)'); make_string(ex, st, a[0], []); return 0
+        # fmt::vformat(string_view fmt, format_args): plain "{}" placeholders with string / C-string / integer arguments are formatted (keys such as
+        # "{}:{}" are semantic); anything else (width/precision specs, floating point) yields an empty message - formatting is never the subject there
+        try:
+            out = fmt_simple(ex, st, a)
+        except Exception:
+            out = None
+        if out is None: S.add('fmt::vformat -> empty string for non-trivial format specs'); make_string(ex, st, a[0], []); return 0
+        S.add('fmt::vformat -> "{}" placeholders with string/integer arguments formatted'); make_string(ex, st, a[0], out); return 0
     # ---------------- std::_Rb_tree support (libstdc++.so internals): unbalanced BST with the same header/leftmost/rightmost contract
     if name == '_ZSt29_Rb_tree_insert_and_rebalancebPSt18_Rb_tree_node_baseS0_RS_':
         S.add('std::_Rb_tree_insert_and_rebalance -> BST insert without rebalancing (same lookups and in-order iteration)')
@@ -611,6 +618,39 @@ def builtin(ex, st, fr, name, a, x, work):
             set_state(ex, st, mf, EOFBIT | (FAILBIT if got == 0 else 0))
         return a[0]
     return NOT
+
+
+def fmt_simple(ex, st, a):
+    from llsym import Ptr
+    fptr, flen, desc, vals = a[1], a[2], a[3], a[4]
+    if not (isc(flen) and isc(desc)): return None
+    f = [ex.load_val(st, Ptr(fptr.obj, fptr.off + i), I8) for i in range(flen)]
+    if not all(isc(b) for b in f): return None
+    f = bytes(f); out = []; i = 0; argi = 0
+    if desc >> 63: return None                     # unpacked argument list (more than 15 arguments)
+    while i < len(f):
+        ch = f[i:i + 1]
+        if ch == b'{':
+            if f[i:i + 2] == b'{{': out.append(123); i += 2; continue
+            if f[i:i + 2] != b'{}': return None
+            ty = (desc >> (4 * argi)) & 0xf; v = Ptr(vals.obj, vals.off + 16 * argi); argi += 1; i += 2
+            if ty in (1, 2, 3, 4):                 # int, uint, long long, unsigned long long
+                w = 32 if ty in (1, 2) else 64; n = ex.load_val(st, v, I32 if w == 32 else I64)
+                if not isc(n): return None
+                if ty in (1, 3) and n >> (w - 1): n -= 1 << w
+                out += [ord(c) for c in str(n)]
+            elif ty == 12:                         # const char*
+                p = ex.load_val(st, v, PTR(I8)); out += cstr(ex, st, p)
+            elif ty == 13:                         # string_view {data, size}
+                p = ex.load_val(st, v, PTR(I8)); n = ex.load_val(st, Ptr(v.obj, v.off + 8), I64)
+                if not isc(n): return None
+                out += [ex.load_val(st, Ptr(p.obj, p.off + k), I8) for k in range(n)]
+            else: return None
+        elif ch == b'}':
+            if f[i:i + 2] == b'}}': out.append(125); i += 2; continue
+            return None
+        else: out.append(f[i]); i += 1
+    return out
 
 
 def make_string(ex, st, p, bs):
